@@ -483,6 +483,17 @@ fn update_weights(
 
     let weight = calculate_weight(lp_asset, unlocking_duration)?;
 
+    let (_, mut address_lp_weight) =
+        get_latest_address_weight(deps.storage, receiver, &lp_asset.denom)?;
+
+    // a position topped up in pieces can weigh more than the sum of the weights recorded for its
+    // pieces (rounding): when closing, never remove more from the total than from the user
+    let weight = if fill {
+        weight
+    } else {
+        weight.min(address_lp_weight)
+    };
+
     let (_, mut lp_weight) =
         get_latest_address_weight(deps.storage, &env.contract.address, &lp_asset.denom)?;
 
@@ -506,9 +517,6 @@ fn update_weights(
     )?;
 
     // update the user's weight for this LP
-    let (_, mut address_lp_weight) =
-        get_latest_address_weight(deps.storage, receiver, &lp_asset.denom)?;
-
     if fill {
         // filling position
         address_lp_weight = address_lp_weight.checked_add(weight)?;
